@@ -716,6 +716,9 @@ func (env *Env) havocTarget(n *Node, st *State) {
 			c := e.comp(st, t.comp, "")
 			e.setComp(st, t.comp, store(c, t.idx, e.declare("havoc.arr", arrayElemSort(e.compSort[t.comp]))))
 		case "comp":
+			if _, known := e.compSort[t.comp]; !known && t.sort == "" {
+				t.sort = e.fieldCompSort(t.comp, env.fnPkg)
+			}
 			e.comp(st, t.comp, t.sort)
 			e.havocComp(st, t.comp)
 		}
@@ -873,4 +876,32 @@ func (env *Env) evalSplit(n *Node) []string {
 		return sub.evalSplit(pd.Body)
 	}
 	return []string{env.evalBool(n)}
+}
+
+
+// fieldCompSort gives the sort of a field component named "H.<pkg>.<Struct>.<Field>" that the current function has
+// not touched yet (needed when a callee's frame names it with comp("...")).
+func (e *Encoder) fieldCompSort(name string, from *types.Package) string {
+	parts := strings.Split(name, ".")
+	if len(parts) != 4 || parts[0] != "H" {
+		return ""
+	}
+	t := e.lookupType(parts[1]+"."+parts[2], from)
+	if t == nil {
+		return ""
+	}
+	_, s := derefStruct(types.NewPointer(t))
+	if s == nil {
+		return ""
+	}
+	for i := 0; i < s.NumFields(); i++ {
+		if s.Field(i).Name() == parts[3] {
+			l := e.fieldLoc(&Loc{Comp: "", Idx: []string{"0"}, Type: t, Root: t}, s.Field(i))
+			if l.Comp != name {
+				return ""
+			}
+			return arrSort(e.rootSort(l))
+		}
+	}
+	return ""
 }
